@@ -1015,16 +1015,22 @@ def json_to_py(m, v, depth=0):
         if not z3.is_const_array(arr):
             # a lambda/as-array interpretation: not expected with model_completion on Store chains
             return {'<unparsed>': str(v)}
+        explicitly_absent = set()
         for k, x in reversed(entries):
             ks = m.eval(k, model_completion=True).as_string()
             val = json_to_py(m, x, depth + 1)
             if val is ABSENT:
                 out.pop(ks, None)
+                explicitly_absent.add(ks)
             else:
                 out[ks] = val
+                explicitly_absent.discard(ks)
         dflt = json_to_py(m, arr.arg(0), depth + 1)
         if dflt is not ABSENT:
             out['<every-other-key>'] = dflt
+            # under a non-absent default the keys the model makes absent must stay visible (as ABSENT markers)
+            for ks in explicitly_absent:
+                out[ks] = ABSENT
         return out
     return str(v)
 
